@@ -129,8 +129,10 @@ def d2(ctx, prog):
     c = calls[0]
     defs = {s.targets[0].id: s.value for s in ast.walk(proc.node) if isinstance(s, ast.Assign) and isinstance(s.targets[0], ast.Name)}
 
+    ldefs_ = astutil.local_defs(proc.node)
+
     def expand(e):
-        return defs.get(e.id, e) if isinstance(e, ast.Name) else e
+        return astutil.expand_locals(defs.get(e.id, e) if isinstance(e, ast.Name) else e, ldefs_)
     tr = kw(c, 'traces') or (c.args[0] if c.args else None)
     da = kw(c, 'data') or (c.args[1] if len(c.args) > 1 else None)
     tr, da = expand(tr), expand(da)
